@@ -74,8 +74,8 @@ KANI_UNITS["C10"] = dict(
     prop="C10", crate="varpulis-runtime",
     appends=[("crates/varpulis-runtime/src/engine/evaluator.rs", "__vpv_c10", "contracts/kani/c10.rs")],
     extra_appends=[("crates/varpulis-parser/src/optimize.rs", C10_SHIM)],
-    grade="K-complete", level="proof", timeout=3000, harness_timeout=300,
-    cell_grades={"c10_expr_": "K-bounded(expression depth 2)", "_str$": "K-bounded(2-byte string literal)"},
+    grade="K-complete", level="proof", timeout=5400, harness_timeout=600,
+    cell_grades={"c10_expr_|c10_shape_": "K-bounded(expression depth 2-3)", "_str$": "K-bounded(2-byte string literal)"},
     functions=["varpulis-parser/src/optimize.rs: fold_binary (every arm: 10 literal arms, 8 identity arms, reconstruct), fold_unary, fold_expr (depth-2 shell)",
                "varpulis-runtime/src/engine/evaluator.rs: eval_expr_with_functions (as the semantics both sides are compared under)"],
     explanation=("One cell per rewrite arm of the REAL fold_binary/fold_unary: for literal x literal arms the operands are full-domain i64/f64; for the identity "
